@@ -28,6 +28,8 @@ func runC07(c *Check, tier string) {
 	}
 	rulePipeErrorPropagated(c, "R07h")
 	ruleReaderConsumedOnce(c, "R07i", "caching", "output")
+	// a result is visible only after its blobs: no upload error is lost on the way to the record
+	ruleWritePathErrors(c, "R07k")
 	// a build killed while it held the workspace lock must not block the next one
 	if li := findLocker(c, "R07j"); li != nil {
 		ruleR10b(c, li, "R07j", false)
